@@ -73,7 +73,7 @@ def _consumer_loops(ctx, fi, g):
             continue
         counter = t.left.id
         body_nodes = g.reach([d for d, k in g.succ[n.id] if k == 'true'], avoid={n.id},
-                             include_start=True)
+                             include_start=True) & g.loop_nodes(n.id)
         nexts = [b for b in body_nodes if any(dotted(c.func) == 'next' for c in node_calls(g, b))]
         apps = []
         acc = None
